@@ -217,6 +217,14 @@ func check(c *Case) *ev.Failure {
 		variantFiles[n] = s
 	}
 	variant := runProgram(variantFiles)
+	if len(c.Layout.Names) >= 2 && !variant.Budget {
+		// the same layout loaded a second time in this process (fresh VM) behaves as it did the first time
+		again := runProgram(variantFiles)
+		r.Class("layout_loaded_twice")
+		if again.Stdout != variant.Stdout || errKind(again) != errKind(variant) {
+			return &ev.Failure{Kind: "layout", Case: c, Msg: fmt.Sprintf("the same file layout behaves differently when it is loaded a second time into a fresh VM:\n--- first load (error %q)\n%s--- second load (error %q)\n%s", errKind(variant), clip(variant.Stdout), errKind(again), clip(again.Stdout))}
+		}
+	}
 	// non-trivial: a use precedes its definition and the partition has >= 2 files
 	useBefore := false
 	seen := map[int]bool{}
@@ -261,6 +269,16 @@ func TestLayouts(t *testing.T) {
 		p := rx.Pick(rt, "profile", gen.Profiles[3], gen.Profiles[3], gen.Profiles[4], gen.Profiles[0], gen.Profiles[1], gen.Profiles[2])
 		p.Panics = true
 		prog, _ := gen.Program(rt, p)
+		if rx.Chance(rt, "forward", 1, 2) {
+			// a call whose only argument is a call of a function with several results (the argument list is compiled from what
+			// is known about the callee, wherever it is declared)
+			files := map[string]string{}
+			for n, s := range prog.Files {
+				files[n] = s
+			}
+			files["prog.go"] += "\nfunc zPair() (int, string) { return 3, \"four\" }\n\nfunc zShow() int {\n\tfmt.Println(zPair())\n\treturn 0\n}\n\nvar zShown = zShow()\n"
+			prog = &oracle.Program{Files: files}
+		}
 		_, decls, err := split(prog.Files["prog.go"])
 		if err != nil {
 			ev.R().Infra("generated program does not parse: %v", err)
